@@ -131,7 +131,24 @@ def w_parse(case):
                             src = text
                 exists = src is not None and 1 <= ent["line"] <= len(src.split("\n"))
                 cited.append([ent["file"], ent["line"], bool(exists)])
-        return {"err": msgs, "rendered": rend, "cited": cited}
+        # ... and the line quoted under a citation is that line of that file (citations are rendered in message order)
+        quoted = []
+        if isinstance(rend, int):
+            import re as _re
+            plain = _re.sub(r"\x1b\[[0-9;]*m", "", rendered)
+            shown = _re.findall(r"\[([^\]\[\n]*):(\d+)\][ \t]*\n[ \t]*\|[ \t]*\n[ \t]*(\d+) \|(?: (.*))?", plain)
+            shown = [x for x in shown if not x[0].endswith(".py")]
+            withfile = [ent for ent in msgs if "file" in ent]
+            if len(shown) == len(withfile):
+                for (fn, ln, ln2, qt), ent in zip(shown, withfile):
+                    src = case["files"].get(ent.get("rel", ""))
+                    if src is None:
+                        continue
+                    lines = src.split("\n")
+                    want = lines[ent["line"] - 1] if 1 <= ent["line"] <= len(lines) else None
+                    ok = want is not None and int(ln) == ent["line"] == int(ln2) and (qt or "").strip() == want.strip()
+                    quoted.append([ent.get("rel"), ent["line"], (qt or "")[:80], (want or "")[:80], bool(ok)])
+        return {"err": msgs, "rendered": rend, "cited": cited, "quoted": quoted}
     finally:
         shutil.rmtree(d, ignore_errors=True)
 
@@ -589,6 +606,16 @@ def run_c08(rep, rng, tier):
                 bad_name = holder["name"]
             elif kind == "undeclared":
                 bad_name = "Nowhere" + str(rng.randint(0, 99))
+                earlier_types = [dc["name"] for dc in d.decls[:d.decls.index(holder)] if dc["k"] in ("struct", "enum")]
+                taken = {dc["name"] for dc in d.decls if "name" in dc}
+                if earlier_types and rng.random() < 0.6:
+                    # a near miss of a declared type: a proper prefix of its name, its name with one more character, its
+                    # name in another case, or a pattern that would match it
+                    base = rng.choice(earlier_types)
+                    cand = rng.choice([base[:-1], base[:max(2, len(base) // 2)], base + "0", base + "_", base.lower(),
+                                       base.upper(), base[0] + base[1:].swapcase()])
+                    if cand not in taken and cand not in RESERVED and len(cand) >= 2 and cand != base:
+                        bad_name = cand
             elif kind == "forward":
                 later = [dc for dc in d.decls[d.decls.index(holder) + 1:] if dc["k"] in ("struct", "enum")]
                 if later:
@@ -967,12 +994,16 @@ def run_c11(rep, rng, tier):
         body = render(rng, desc_toks(rng, d), "canon")
         tail = rng.choice(bad_tails)
         deep = rng.random() < 0.4
-        files = {"main.fcp": 'version: "3"\nmod ' + ("lib.a" if deep else "a") + ";\nstruct Main { x @ 0: u8, }\n"}
+        # the import statement anywhere in the importer (also far below the last line of a short module)
+        lead = rng.choice(["", "", "\n" * rng.randint(1, 40), "// pad\n" * rng.randint(1, 25) + "struct Lead { y @ 0: u8, }\n"])
+        files = {"main.fcp": 'version: "3"\n' + lead + "mod " + ("lib.a" if deep else "a") + ";\nstruct Main { x @ 0: u8, }\n"}
+        short = rng.random() < 0.4
+        module = ('version: "3"\n' + tail) if short else (body + "\n" * rng.randint(1, 30) + tail)
         if deep:
-            files["lib/a.fcp"] = 'version: "3"\nmod b;\n'
-            files["lib/b.fcp"] = body + "\n" * rng.randint(1, 30) + tail
+            files["lib/a.fcp"] = 'version: "3"\n' + rng.choice(["", "\n" * rng.randint(1, 20)]) + "mod b;\n"
+            files["lib/b.fcp"] = module
         else:
-            files["a.fcp"] = body + "\n" * rng.randint(1, 30) + tail
+            files["a.fcp"] = module
         inputs.append((json.dumps(files, sort_keys=True), "module-error"))
         jobs.append({"files": files, "root": "main.fcp", "from_string": False})
     ires = run_cases("harness.frontend", "w_parse", jobs, timeout_s=60)
@@ -1002,6 +1033,12 @@ def run_c11(rep, rng, tier):
                 rep.cov["disagreements_checked"] += 1
                 rep.violation(dict(base, kind="cited-line", observed=o["cited"],
                                    what="the diagnostic cites a source line that does not exist"))
+                continue
+            rep.hist("quoted_lines_checked", len(o.get("quoted", [])))
+            if any(not q[4] for q in o.get("quoted", [])):
+                rep.cov["disagreements_checked"] += 1
+                rep.violation(dict(base, kind="quoted-line", observed=[q for q in o["quoted"] if not q[4]],
+                                   what="the line shown under a citation is not that line of the named source"))
                 continue
         # classification against the reference front end, inside its domain only
         mo = "ok" if "ok" in m else "err"
